@@ -397,6 +397,9 @@ class MarkdownNormalizer(Renderer):
             with self.container(prefix, subsequent_indent):
                 rendered_item = self.render(child)
                 result.append(rendered_item)
+            # The item has used up the first-line prefix of the enclosing block; every
+            # following item starts on a continuation line.
+            self._prefix = self._second_prefix
 
         # Restore the previous list's tightness (for nested lists)
         self._current_list_tight = old_tight
